@@ -2995,11 +2995,27 @@ class FuncPow(ValueFunc):
         if args.get("y").isInt() and args.get("x").isInt():
             x = args.getInt("x").value
             y = args.getInt("y").value
-            return ValueInt(int(math.pow(x, y)))
+            if y >= 0:
+                return ValueInt(x ** y)
+            try:
+                return ValueInt(int(math.pow(x, y)))
+            except (ValueError, OverflowError, ZeroDivisionError):
+                raise CklRuntimeError(
+                    ValueString("ERROR"),
+                    "Cannot calculate " + str(x) + " to the power of " + str(y),
+                    pos,
+                )
         else:
             x = args.get("x").asDecimal().value
             y = args.get("y").asDecimal().value
-            return ValueDecimal(math.pow(x, y))
+            try:
+                return ValueDecimal(math.pow(x, y))
+            except (ValueError, OverflowError, ZeroDivisionError):
+                raise CklRuntimeError(
+                    ValueString("ERROR"),
+                    "Cannot calculate " + str(x) + " to the power of " + str(y),
+                    pos,
+                )
 
 
 class FuncPrint(ValueFunc):
